@@ -24,6 +24,8 @@ B = ("bnode", "b")
 TERMS = {
     # object position alphabets
     "dt": [("lit", "v", None, "http://dt/0"), ("lit", "v", None, "http://dt/1"), ("lit", "v", None, "http://dt/2"), ("lit", "w", None, None)],
+    "dt6": [("lit", "v", None, "http://dt/0"), ("lit", "v", None, "http://dt/1"), ("lit", "v", None, "http://dt/2"), ("lit", "v", None, "http://dt/3"),
+            ("lit", "v", None, "http://dt/4"), ("lit", "w", None, None)],
     "names": [("iri", "http://p/a"), ("iri", "http://p/b"), ("iri", "http://p/c"), ("iri", "http://p/d")],
     "iri": [("iri", "http://p1/n1"), ("iri", "http://p1/n2"), ("iri", "http://p2/n1"), ("iri", "http://p2/n3"), ("iri", "n2"), ("iri", "http://p3/n3")],
 }
@@ -57,7 +59,7 @@ def termbmc(sel: List[int]) -> bool:
             picks = []
         for i, t in enumerate(picks):
             s = picks[i - 1] if (P.get("two") and i > 0 and integ == "generic") else B
-            items.append(("T", s if (s[0] != "lit" or integ == "generic") else B, ("iri", "http://p1/n1") if P["alph"] == "dt" else B if integ == "generic" else ("iri", "n2"), t))
+            items.append(("T", s if (s[0] != "lit" or integ == "generic") else B, ("iri", "http://p1/n1") if P["alph"].startswith("dt") else B if integ == "generic" else ("iri", "n2"), t))
         want = [norm_item(i) for i in items]
         opts = pj.make_options(1, frame_size=P.get("fs", 1000), names=8, prefixes=sizes[1] or 0, datatypes=sizes[2] or 0,
                                generalized=integ == "generic", rdf_star=integ == "generic")
